@@ -151,22 +151,64 @@ def check(R, F):
                     emits.append((fn, b, t, a))
             if n.endswith('message::writer::HintPointer::new'):
                 news.append((fn, b, t))
+    from qv import origins
+    pn = F.maybe('message::writer::PriorName::new')
+    pn_ptr_is_arg1 = False
+    if pn is not None:
+        lits = [st for bl in pn.blocks for st in bl['stmts'] if st['k'] == 'assign' and st['rv']['k'] == 'agg' and st['rv']['def'].endswith('PriorName')]
+        pn_ptr_is_arg1 = len(lits) == 1 and dict(zip(lits[0]['rv'].get('fields', []), [paths.show_operand(pn, o) for o in lits[0]['rv']['ops']])).get('pointer') == 'arg1'
+
+    def pointer_sources(fn, b, t):
+        """Where the 14-bit value OR-ed with 0xc000 comes from, by provenance: [(source kind, ok)]."""
+        sd = fn.single_def(t['args'][1]['pl']['l']) if is_place(t['args'][1]) and not t['args'][1]['pl']['p'] else None
+        if not sd or sd[2] != 'assign' or sd[3]['rv']['k'] != 'bin' or sd[3]['rv']['op'] != 'BitOr':
+            return [('?', False)]
+        x = [o for o in (sd[3]['rv']['a'], sd[3]['rv']['b']) if is_place(o)]
+        gd = fn.single_def(x[0]['pl']['l']) if len(x) == 1 and not x[0]['pl']['p'] else None
+        if not gd or gd[2] != 'call' or not callee_name(gd[3]).endswith('HintPointer::get') or not is_place(gd[3]['args'][0]):
+            return [('?', False)]
+        c_ = fn.canon(gd[3]['args'][0]['pl'])
+        out = []
+        leaves = origins.trace(fn, c_['l'], origins.norm_path(c_['p']), at=(gd[0], None))
+        if leaves and all(lf[0] == 'param' for lf in leaves):
+            # read straight out of a parameter (self.<anchor>, the hint): the rendered place says which
+            leaves = [('rv', b, None, {'k': 'use', 'op': gd[3]['args'][0]})]
+        for lf in leaves:
+            if lf[0] == 'rv' and lf[3].get('k') == 'use':
+                txt = paths.show_operand(fn, lf[3]['op'])
+                m = re.match(r'^arg1\.(qname|most_recent_owner|most_recent_name_in_rdata)(@Some\.0(\.pointer|\.0)?)?$', txt)
+                if m:
+                    # the value is the payload of a stored anchor; it is used only below a test that the Option holding it
+                    # (the field itself, or the variable it was copied into) is Some
+                    g = paths.dom_guards(fn, b)
+                    out.append((m.group(1), any(re.match(r'^discr\((arg1\.%s|var:[^)]*|_\d+)\) (in \[1\]|not in \[0\])$' % m.group(1), x_) for x_ in g)))
+                    continue
+                m = re.match(r'^arg\d(\.hint)?@Explicit\.0$', txt)
+                if m:
+                    g = paths.dom_guards(fn, lf[1]) + paths.dom_guards(fn, b)
+                    out.append(('explicit', any(re.match(r'^Lt\(cast\(HintPointer::get\(arg\d(\.hint)?@Explicit\.0\)\),arg1\.cursor\) not in \[0\]$', x_) for x_ in g)))
+                    continue
+                if 'prior_pointer' in txt:
+                    out.append(('match', True))
+                    continue
+                out.append(('?' + txt[:60], False))
+            elif lf[0] == 'call' and callee_name(lf[2]).endswith('PriorName::new') and pn_ptr_is_arg1 and lf[3] and lf[3][-1] == ('f', 0) or (lf[0] == 'call' and callee_name(lf[2]).endswith('PriorName::new') and pn_ptr_is_arg1):
+                hp_ = paths.show_operand(fn, lf[2]['args'][0])
+                g = paths.dom_guards(fn, lf[1])
+                out.append(('explicit', re.match(r'^arg\d(\.hint)?@Explicit\.0$', hp_) is not None and any(re.match(r'^Lt\(cast\(HintPointer::get\(arg\d(\.hint)?@Explicit\.0\)\),arg1\.cursor\) not in \[0\]$', x_) for x_ in g)))
+            elif lf[0] == 'call' and ('fold' in callee_name(lf[2]) or 'min_by' in callee_name(lf[2])):
+                out.append(('match', True))
+            elif lf[0] == 'param':
+                out.append(('explicit' if False else '?param', False))
+            else:
+                out.append(('?' + str(lf[0]), False))
+        return out or [('?', False)]
     for k, (fn, b, t, a) in enumerate(emits):
-        inner = a[len('BitOr(49152_u16,'):-1]
-        ok = inner.startswith('HintPointer::get(')
-        src = None
-        for s_, rx in (('qname', r'^HintPointer::get\(arg1\.qname@Some\.0\.pointer\)$'), ('most_recent_owner', r'^HintPointer::get\(arg1\.most_recent_owner@Some\.0\.pointer\)$'),
-                       ('most_recent_name_in_rdata', r'^HintPointer::get\(arg1\.most_recent_name_in_rdata@Some\.0\.pointer\)$'), ('explicit', r'^HintPointer::get\(arg\d(\.hint)?@Explicit\.0\)$'),
-                       ('match', r'^HintPointer::get\(.*fold\(.*\)@Some\.0\.prior_pointer\)$|^HintPointer::get\(.*prior_pointer\)$')):
-            if re.match(rx, inner):
-                src = s_
-        g = paths.dom_guards(fn, b)
-        if src == 'explicit':
-            ok = ok and any(re.match(r'^Lt\(cast\(HintPointer::get\(arg\d(\.hint)?@Explicit\.0\)\),arg1\.cursor\) not in \[0\]$', x) for x in g)
-        if src in ('qname', 'most_recent_owner', 'most_recent_name_in_rdata'):
-            ok = ok and (('discr(arg1.%s) in [1]' % src) in g or ('discr(arg1.%s) not in [0]' % src) in g)
-        R.require(ok and src is not None, 'pointer-source', '%s|emit-from-%s#%d' % (fn.gpath, src, k), fn.where(b), 'pointer value comes from the %s anchor' % src, 'a pointer is emitted with value %s, which is not a stored HintPointer (or an explicit hint not tested against the cursor)' % inner)
-    R.require(len(emits) == 6, 'pointer-source', 'message::writer|emission-sites', '', '6 emission sites', 'found %d pointer emission sites, expected 6 (4 hinted, 2 in the scan)' % len(emits))
+        srcs = pointer_sources(fn, b, t)
+        names = sorted({s_ for s_, ok_ in srcs})
+        R.require(all(ok_ for s_, ok_ in srcs), 'pointer-source', '%s|emit-from-%s#%d' % (fn.gpath, '+'.join(names), k), fn.where(b), 'pointer value comes from the %s anchor(s)' % names,
+                  'a pointer is emitted with value %s, which is not (only) a stored HintPointer under its Some test, an explicit hint tested against the cursor, or a match of the scan: %s' % (a, srcs))
+    R.require(len(emits) >= 3, 'pointer-source', 'message::writer|emission-sites', '', '%d emission sites' % len(emits), 'found %d pointer emission sites, expected the hinted one(s) and the two of the scan' % len(emits))
     hp = F.fn('message::writer::HintPointer::new')
     somes = [b for b, bl in enumerate(hp.blocks) for st in bl['stmts'] if st['k'] == 'assign' and st['lhs']['l'] == 0 and st['rv']['k'] == 'agg' and st['rv']['def'].endswith('Option::Some')]
     g = paths.dom_guards(hp, somes[0]) if len(somes) == 1 else []
